@@ -259,8 +259,8 @@ StepRec(s, x, o, closes, arms) ==
    effns |-> o.effns, effbox |-> o.effbox, must |-> o.must, login |-> o.login, arms |-> arms,
    sees |-> o.sees, was |-> phase[s], asuser |-> IF o.user # None THEN o.user ELSE user[s],
    inidle |-> idle[s],
-   \* what a NOOP probe on every other open session must be answered after this step
-   others |-> [t \in Sessions \ {s} |-> IF phase[t] # "Closed" /\ ~idle[t] THEN Out(t, "NOOP").res ELSE {}],
+   \* what a NOOP probe on every watcher must be answered after this step
+   others |-> [t \in Watchers \ {s} |-> IF phase[t] # "Closed" /\ ~idle[t] THEN Out(t, "NOOP").res ELSE {}],
    nphase |-> IF gone THEN "Closed" ELSE o.phase, nuser |-> IF gone THEN None ELSE o.user,
    nsel |-> IF gone THEN None ELSE o.sel, nro |-> IF gone THEN FALSE ELSE o.ro, nidle |-> IF gone THEN FALSE ELSE o.idle]
 
@@ -300,7 +300,7 @@ Reconnect(s) ==
   /\ UNCHANGED <<user, sel, ro, idle, errs, boxes, subd, failures, jailLeft>>
   /\ last' = [s |-> s, x |-> "RECONNECT", res |-> {"OK"}, tag |-> "none", close |-> FALSE, bye |-> FALSE, kind |-> "keep",
               effns |-> {}, effbox |-> {}, must |-> FALSE, login |-> None, arms |-> FALSE, sees |-> {},
-              was |-> "Closed", asuser |-> None, inidle |-> FALSE, others |-> [t \in Sessions \ {s} |-> {}],
+              was |-> "Closed", asuser |-> None, inidle |-> FALSE, others |-> [t \in Watchers |-> {}],
               nphase |-> "NotAuth", nuser |-> None, nsel |-> None, nro |-> FALSE, nidle |-> FALSE]
   /\ Keep
 
@@ -312,7 +312,7 @@ Tick ==
   /\ UNCHANGED <<phase, user, sel, ro, idle, errs, boxes, subd>>
   /\ last' = [s |-> "-", x |-> "TICK", res |-> {}, tag |-> "none", close |-> FALSE, bye |-> FALSE, kind |-> "keep",
               effns |-> {}, effbox |-> {}, must |-> FALSE, login |-> None, arms |-> FALSE, sees |-> {},
-              was |-> "-", asuser |-> None, inidle |-> FALSE, others |-> [t \in Sessions |-> {}],
+              was |-> "-", asuser |-> None, inidle |-> FALSE, others |-> [t \in Watchers |-> {}],
               nphase |-> "-", nuser |-> None, nsel |-> None, nro |-> FALSE, nidle |-> FALSE]
   /\ Keep
 
